@@ -680,6 +680,30 @@ class LetterSym(_Opts, SymmetryStrategy[WC, W]):
         yield W(objs[0].translate(self._tr(c)))
 
 
+class LetterSymNE(_Opts, DisjointUnionStrategy[WC, W]):
+    """The letter symmetry as an ordinary two-way single-child rule that is *not* an equivalence
+    (can_be_equivalent False) and whose child is workable: every class of the universe shares
+    its equivalence label with its mirror image, both are expanded, and the parents of a label
+    reach it through either of the two - the situation the equivalence-path variant of the
+    parallel finder has to tell apart."""
+
+    _tr = LetterSym._tr
+    decomposition_function = LetterSym.decomposition_function
+    extra_parameters = LetterSym.extra_parameters
+    forward_map = LetterSym.forward_map
+    backward_map = LetterSym.backward_map
+
+    def __init__(self, **kw):
+        kw.setdefault("possibly_empty", False)
+        super().__init__(**kw)
+
+    def can_be_equivalent(self):
+        return False
+
+    def formal_step(self):
+        return "letter symmetry (two-way, not an equivalence)"
+
+
 class _Inferral(_Opts, DisjointUnionStrategy[WC, W]):
     def __init__(self, **kw):
         kw.setdefault("possibly_empty", False)
@@ -1176,6 +1200,8 @@ def make_pack(opts=None):
         initial, sets = [Unflag(), split_pair], [[remove], [expand] + twice]
     else:
         initial, sets = [Unflag(), split_pair], [[remove, expand] + twice]
+    if o["sym"] == "ne":
+        initial = initial + [LetterSymNE()]
     if o["ver"] == "stat":
         ver = [StatAtom()]
     elif o["ver"] == "atom":
@@ -1192,6 +1218,6 @@ def make_pack(opts=None):
         expansion_strats=sets,
         ver_strats=ver,
         name="words:" + json.dumps(o, sort_keys=True),
-        symmetries=[LetterSym()] if o["sym"] else [],
+        symmetries=[LetterSym()] if o["sym"] and o["sym"] != "ne" else [],
         iterative=o["iterative"],
     )
